@@ -213,8 +213,11 @@ def cli_case(draw):
     family = draw(st.sampled_from([None, None, None, None, "prefix", "suffix"]))
     for i in range(draw(st.integers(1, 3)) if not family else draw(st.integers(2, 3))):
         opt = draw(st.sampled_from(["-a", "-a", "-g", "-b"])) if not family else {"prefix": "-g", "suffix": "-a"}[family]
+        if family and i == 0:
+            # equal lengths (barcode sets: one string length in the index) or mixed lengths
+            flen = draw(st.sampled_from([None, None, 6, 8, 12]))
         text = (lambda: _adapter_text(draw)) if not family else \
-            (lambda: draw(st.text(alphabet="ACGT", min_size=5, max_size=20).filter(lambda x: len(x) >= 5)))
+            (lambda: draw(st.text(alphabet="ACGT", min_size=flen or 5, max_size=flen or 20)))
         if draw(st.integers(0, 2)) > 0:
             t = draw(st.sampled_from(CLI_TYPES[opt])) if not family else family
             params = draw(_params())
@@ -273,6 +276,16 @@ def cli_case(draw):
             sc["reads"].append(left + "".join(mid) + right)
         else:
             sc["reads"].append(draw(gen.planted_read(sn, min(k, 3), max_flank=6))[0].upper())
+    # soft-masked input: matching ignores the case of the read
+    case_mode = draw(st.sampled_from(["upper", "upper", "upper", "lower", "mixed"]))
+    if case_mode == "lower":
+        sc["reads"] = [x.lower() for x in sc["reads"]]
+    elif case_mode == "mixed":
+        out = []
+        for x in sc["reads"]:
+            flips = draw(st.lists(st.booleans(), min_size=len(x), max_size=len(x)))
+            out.append("".join(c.lower() if f else c for c, f in zip(x, flips)))
+        sc["reads"] = out
     return sc
 
 
@@ -359,8 +372,17 @@ def check_cli(sc, ctx):
         for spec in specs:
             t, seq = spec["type"], spec["seq"]
             if t in indexed:
-                ctx.label("cli:not-demanded-index-ambiguity-possible")
-                continue
+                # demanded only when this adapter is the only one of its kind that occurs within tolerance at the
+                # anchored end (then the index must report it) and the read consists of A, C, G, T only (the index
+                # holds strings over ACGT; N in the read has a fallback, other characters have none)
+                if not set(read.upper()) <= set("ACGT") or "N" in seq or any(
+                        other is not spec and other["type"] == t and oracle.admissible_exists(
+                            other["seq"], read.upper(), oracle.FLAGS[t], other["e"], len(other["seq"]), other["indels"],
+                            oracle.eq_relation(False, other["rw"]), False) is not None
+                        for other in specs):
+                    ctx.label("cli:not-demanded-index-ambiguity-possible")
+                    continue
+                ctx.label("cli:indexed-unique-occurrence")
             M = len(seq)
             aw_eff = not set(seq) <= set("ACGT")
             eq = oracle.eq_relation(aw_eff, spec["rw"])
